@@ -1362,6 +1362,31 @@ func slotMemos(fn *ssa.Function) []slotMemo {
 					}
 				}
 			})
+			// (c) the slot is read again after the conditional refill (if stale { slot = compute() }; use(slot)): the hit
+			// conditions are the refill's own guards
+			if len(hitFacts) == 0 {
+				eachInstr(fn, func(hb *ssa.BasicBlock, hin ssa.Instruction) {
+					u, ok := hin.(*ssa.UnOp)
+					if !ok || u.Op != token.MUL {
+						return
+					}
+					if f, _ := fieldOfAddr(u.X); f != slot {
+						return
+					}
+					if hb == b || b.Dominates(hb) || hb.Dominates(b) || !reachFrom(b, nil)[hb] {
+						return
+					}
+					later := map[*ssa.If]bool{}
+					for _, f := range factsAt(hb) {
+						later[f.If] = true
+					}
+					for _, f := range factsAt(b) {
+						if !later[f.If] {
+							hitFacts = append(hitFacts, f)
+						}
+					}
+				})
+			}
 			if len(hitFacts) == 0 {
 				continue
 			}
@@ -1940,4 +1965,230 @@ func c16NoShrinkingCaptures(c *Ctx, p *Prog) {
 		})
 	}
 	c.Floor(R, "captured slice variables assigned in the renderers' closures", n, 1)
+}
+
+// ---- rules added for the eighth round of seeded changes (DESIGN §0.18) ----
+
+// c19FirstEquals (part of C19/R13): a sub-benchmark part `key=value` is cut at its first '=': parseNameLabels does not
+// look for the last one (the value may itself contain '=').
+func c19FirstEquals(c *Ctx, p *Prog) {
+	const R = "C19/R13"
+	fn := p.Fn("storage/benchfmt", "parseNameLabels")
+	if fn == nil {
+		c.Undecided(R, "anchor:parseNameLabels", "", "not found")
+		return
+	}
+	bad := ""
+	eachInstr(fn, func(_ *ssa.BasicBlock, in ssa.Instruction) {
+		call, ok := in.(*ssa.Call)
+		if !ok {
+			return
+		}
+		co := calleeObj(&call.Call)
+		if co == nil || co.Pkg() == nil || co.Pkg().Path() != "strings" || !strings.HasPrefix(co.Name(), "LastIndex") || len(call.Call.Args) < 2 {
+			return
+		}
+		if k, ok := constString(call.Call.Args[1]); ok && k == "=" {
+			bad = p.pos(call.Pos())
+		}
+		if k, ok := constInt(call.Call.Args[1]); ok && k == '=' {
+			bad = p.pos(call.Pos())
+		}
+	})
+	c.Check(bad == "", R, "parseNameLabels:key ends at the first '='", p.pos(fn.Pos()), "no search for the last '='",
+		"a sub-benchmark part is cut at its last '=' (at "+bad+"): for BenchmarkDecode/text=a=b the stored label is `text=a: b` instead of `text: a=b`, so queries on text miss the record")
+}
+
+// c15WholeResidue (C15/R16): what a cell warns about is computed from all of its residues: the argument of
+// NonSingularFields in the cell summary is the key list of the residue set as mapKeys returns it.
+func c15WholeResidue(c *Ctx, p *Prog, R string) {
+	n := 0
+	for _, fn := range p.Funcs(btabRel) {
+		eachInstr(fn, func(_ *ssa.BasicBlock, in ssa.Instruction) {
+			call, ok := in.(*ssa.Call)
+			if !ok || !objIs(calleeObj(&call.Call), rp("benchproc"), "", "NonSingularFields") {
+				return
+			}
+			n++
+			arg := call.Call.Args[0]
+			_, isCall := arg.(*ssa.Call)
+			c.Check(isCall, R, fmt.Sprintf("%s:non-singular fields of the whole residue#%d", fnName(fn), n), p.pos(call.Pos()), "the key list is handed over as collected",
+				"NonSingularFields is given something other than the collected key list itself (a selection of it): a field that differs only between keys that were left out is not reported, and which keys are left out depends on their order")
+		})
+	}
+	c.Floor(R, "calls of NonSingularFields in the table builder", n, 1)
+}
+
+// c09ComparatorsReadOnly (C09/R14 = C15/R17): comparing does not change the order: no closure stored into Field.cmp
+// (nor a closure it makes or calls) writes a map or memory it captured. Cells are summarised by concurrent goroutines
+// that sort with the same comparators.
+func c09ComparatorsReadOnly(c *Ctx, p *Prog, R string) {
+	cmpF := p.Field("benchproc", "Field", "cmp")
+	if cmpF == nil {
+		c.Undecided(R, "anchor:Field.cmp", "", "not found")
+		return
+	}
+	n := 0
+	seen := map[*ssa.Function]bool{}
+	for _, fn := range p.Funcs("benchproc") {
+		for _, st := range storesToField(fn, cmpF) {
+			mc, ok := st.Val.(*ssa.MakeClosure)
+			if !ok {
+				continue
+			}
+			f, _ := mc.Fn.(*ssa.Function)
+			if f == nil || seen[f] {
+				continue
+			}
+			seen[f] = true
+			n++
+			bad := ""
+			var visit func(g *ssa.Function, d int)
+			visit = func(g *ssa.Function, d int) {
+				if d > 3 || g.Blocks == nil {
+					return
+				}
+				eachInstr(g, func(_ *ssa.BasicBlock, in ssa.Instruction) {
+					switch x := in.(type) {
+					case *ssa.MapUpdate:
+						if rootIsFreeVar(x.Map, 0) {
+							bad = p.pos(x.Pos())
+						}
+					case *ssa.Store:
+						if rootIsFreeVar(x.Addr, 0) {
+							bad = p.pos(x.Pos())
+						}
+					case *ssa.MakeClosure:
+						if h, ok := x.Fn.(*ssa.Function); ok {
+							visit(h, d+1)
+						}
+					case *ssa.Call:
+						if h := x.Call.StaticCallee(); h != nil && h.Parent() != nil {
+							visit(h, d+1)
+						}
+						// a closure held in a captured variable (orderOf := func…; cmp = func… { orderOf(a) })
+						v := x.Call.Value
+						if ld, ok := v.(*ssa.UnOp); ok && ld.Op == token.MUL {
+							v = ld.X
+						}
+						if fv, ok := v.(*ssa.FreeVar); ok && g.Parent() != nil {
+							for _, pin := range allInstrs(g.Parent()) {
+								pmc, ok := pin.(*ssa.MakeClosure)
+								if !ok || pmc.Fn != ssa.Value(g) {
+									continue
+								}
+								for i, f2 := range g.FreeVars {
+									if f2 != fv || i >= len(pmc.Bindings) {
+										continue
+									}
+									bnd := pmc.Bindings[i]
+									if al, ok := bnd.(*ssa.Alloc); ok {
+										for _, st2 := range storesInto(al) {
+											bnd = st2.Val
+										}
+									}
+									if hm, ok := bnd.(*ssa.MakeClosure); ok {
+										if h, ok := hm.Fn.(*ssa.Function); ok {
+											visit(h, d+1)
+										}
+									}
+								}
+							}
+						}
+					}
+				})
+			}
+			visit(f, 0)
+			c.Check(bad == "", R, fnName(f)+":read-only", p.pos(f.Pos()), "the comparator writes nothing it captured",
+				"a field comparator writes captured state (at "+bad+"): sorting then changes the order it sorts by, and the per-cell goroutines that sort residue keys with the shared projection's comparators write the same map concurrently")
+		}
+	}
+	c.Floor(R, "comparator closures stored into Field.cmp", n, 2)
+}
+
+// c20LabelKept (C20/R14): every label of an accepted record is queued: in Upload.insertLabel no return that can be nil
+// is reachable without passing the store that appends to the pending label arguments.
+func c20LabelKept(c *Ctx, p *Prog) {
+	const R = "C20/R14"
+	fn := p.Method("storage/db", "Upload", "insertLabel")
+	argsF := p.Field("storage/db", "Upload", "insertLabelArgs")
+	if fn == nil || argsF == nil {
+		c.Undecided(R, "anchor:Upload.insertLabel/insertLabelArgs", "", "not found")
+		return
+	}
+	keeps := blocksWhere(fn, func(in ssa.Instruction) bool {
+		st, ok := in.(*ssa.Store)
+		if !ok {
+			return false
+		}
+		f, _ := fieldOfAddr(st.Addr)
+		if f != argsF {
+			return false
+		}
+		call, isCall := st.Val.(*ssa.Call)
+		if !isCall {
+			return false
+		}
+		bi, isB := call.Call.Value.(*ssa.Builtin)
+		return isB && bi.Name() == "append"
+	})
+	reach := reachFrom(fn.Blocks[0], keeps)
+	bad, nRet := "", 0
+	for _, b := range fn.Blocks {
+		ret, ok := b.Instrs[len(b.Instrs)-1].(*ssa.Return)
+		if !ok || len(ret.Results) == 0 {
+			continue
+		}
+		// a return of an error known to be non-nil (the failed flush) is not an acceptance
+		knownErr := false
+		for _, f := range factsAt(b) {
+			if bo, ok := f.Cond.(*ssa.BinOp); ok && bo.X == retLast(ret) && (bo.Op == token.NEQ && f.True || bo.Op == token.EQL && !f.True) {
+				if k, ok := bo.Y.(*ssa.Const); ok && k.IsNil() {
+					knownErr = true
+				}
+			}
+		}
+		if knownErr {
+			continue
+		}
+		nRet++
+		if reach[b] {
+			bad = p.pos(ret.Pos())
+		}
+	}
+	c.Check(bad == "" && len(keeps) > 0, R, "insertLabel:accepted means queued", p.pos(fn.Pos()), fmt.Sprintf("%d returns that can report success, each after the label was appended", nRet),
+		"insertLabel can report success (at "+bad+") without having appended the label to the pending arguments: the label that happens to arrive when the batch is full is dropped, and the record cannot be found by it")
+}
+
+// c19DecodeIntoFresh (C19/R15): a listing row shows its own labels only: where the client decodes a JSON row into a
+// field of the iterator, a store that resets that field dominates the decode.
+func c19DecodeIntoFresh(c *Ctx, p *Prog) {
+	const R = "C19/R15"
+	n := 0
+	for _, fn := range p.Funcs("storage") {
+		eachInstr(fn, func(_ *ssa.BasicBlock, in ssa.Instruction) {
+			call, ok := in.(*ssa.Call)
+			if !ok || !objIs(calleeObj(&call.Call), "encoding/json", "Decoder", "Decode") {
+				return
+			}
+			arg := call.Call.Args[len(call.Call.Args)-1]
+			if mi, ok := arg.(*ssa.MakeInterface); ok {
+				arg = mi.X
+			}
+			f, _ := fieldOfAddr(arg)
+			if f == nil {
+				return
+			}
+			n++
+			reset := false
+			for _, st := range storesToField(fn, f) {
+				if instrDominates(st, call) {
+					reset = true
+				}
+			}
+			c.Check(reset, R, fmt.Sprintf("%s:decodes into a reset %s", fnName(fn), f.Name()), p.pos(call.Pos()), "the target is reset before every decode",
+				"the JSON row is decoded into "+f.Name()+" without that field having been reset first: Decode leaves absent members alone and adds to an existing map, so a row lacking a label shows the previous row's value (and rows already handed out change)")
+		})
+	}
+	c.Floor(R, "JSON decodes into iterator fields in the storage client", n, 1)
 }
